@@ -1,6 +1,6 @@
 ----------------------------- MODULE GfaStore -----------------------------
 (* The in-memory graph object (gaftools/gfa.py: GFA / Node) as a state machine.            *)
-(*   AddNode(n)                    <-> GFA.add_node(n, seq)                                 *)
+(*   AddNode(n)                    <-> GFA.add_node(n, seq)   (a no-op for an identifier that is alive) *)
 (*   AddLink(a, ao, b, bo, ov, tg) <-> GFA.add_edge(a, ao, b, bo, ov, tags)   (E_DIR sides) *)
 (*   DelNode(n)                    <-> GFA.remove_node(n)  (remove_edge for every incident link) *)
 (* Abstract state: node set, set of links between node sides, and the link-tag table which  *)
@@ -35,7 +35,7 @@ ApplyDelNode(S, n) ==
 
 (* one operation of a history, as a record; Apply is the single source of truth for traces *)
 OpEnabled(S, o) ==
-  CASE o.op = "AddNode" -> o.n \notin S.nodes
+  CASE o.op = "AddNode" -> TRUE                    \* adding an identifier that is alive changes nothing (the code warns)
     [] o.op = "AddLink" -> o.a \in S.nodes /\ o.b \in S.nodes
     [] o.op = "DelNode" -> o.n \in S.nodes
 Apply(S, o) ==
@@ -48,7 +48,7 @@ Set(T) == /\ nodes' = T.nodes /\ links' = T.links /\ etags' = T.etags
 
 Init == nodes = {} /\ links = {} /\ etags = <<>> /\ ndel = 0
 
-AddNode(n) == /\ n \notin nodes
+AddNode(n) == /\ n \in nodes => links # {}      \* re-adding a live node: explored once the graph has a link to lose
               /\ Set(ApplyAddNode(St, n)) /\ UNCHANGED ndel
 AddLink(a, ao, b, bo, ov, tg) ==
               /\ a \in nodes /\ b \in nodes
